@@ -4,6 +4,7 @@ import re
 from gsa import cmprules, facts, ir, paths
 from gsa.facts import Unit, rel, AnalysisBroken
 from gsa.report import Check
+from rules import c09
 
 M = ['src/Collapse/']
 UNITS = [Unit('sparse', 'misc_pat.cpp', M, no_inst=True),
@@ -393,6 +394,11 @@ def run(tier, replay=None):
                      ' '.join(ir.show(x) for x in ir.walk(l['body']) if x.get('k') == 'ReturnStmt'))
     chk.ob('E7b-arms', 'TBB and sequential edge sorts use the same range and comparator', H,
            lam['sparse'][1:] == lam['tbb'][1:], '%s vs %s' % (lam['sparse'], lam['tbb']), key='E7b|edge-sort')
+    _by = {}
+    for _f in F.functions:
+        if _f.get('inst') in (0, 2) and _f.get('body') is not None and _f['file'].startswith(facts.REPO):
+            _by.setdefault(_f.get('cls') or _f.get('clsname') or '-', []).append(_f)
+    c09.run_assert_purity(chk, F, by=_by, min_count=5)
     chk.assumptions += ['clang 14 parser; three preprocessor configurations parsed',
                         'textual identity of key expressions (u, v, i, f) inside one function']
     return chk
